@@ -339,6 +339,7 @@ func checkC19(c *ctx) {
 		{name: "merge of one segment with a deletion (a single contributor)", inputs: []zh.Batch{mkBatch(4, 1, 1, "k")}, drops: [][]uint64{{1}}, fields: sx.L(sx.L(sx.N(1), sx.Bool(false)))},
 		{name: "merge of three segments, the first one fully deleted", inputs: []zh.Batch{mkBatch(3, 1, 1, "l"), mkBatch(3, 1, 1, "m"), mkBatch(2, 2, 1, "n")}, drops: [][]uint64{{0, 1, 2}, nil, {0}}, fields: sx.L(sx.L(sx.N(2), sx.Bool(false)))},
 		{name: "merge of three segments, only the middle one contributes vectors", inputs: []zh.Batch{mkBatch(2, 1, 1, "o"), mkBatch(3, 2, 1, "p"), mkBatch(2, 1, 1, "q")}, drops: [][]uint64{{0, 1}, nil, {0, 1}}, fields: sx.L(sx.L(sx.N(1), sx.Bool(false)))},
+		{name: "merge with an input whose own index is clustered (>= 1000 vectors in one input)", inputs: []zh.Batch{mkBatch(520, 2, 1, "r"), mkBatch(3, 1, 1, "s")}, drops: [][]uint64{{5}, nil}, ivf: true, fields: sx.L(sx.L(sx.N(2), sx.Bool(true)))},
 		{name: "merge reaching >= 1000 vectors (clustered index)", inputs: []zh.Batch{mkBatch(300, 2, 1, "i"), mkBatch(260, 2, 1, "j")}, drops: [][]uint64{nil, nil}, ivf: true, fields: sx.L(sx.L(sx.N(2), sx.Bool(true)))},
 	}
 	if c.Quick {
